@@ -1,7 +1,7 @@
 import Rg.Model.Comment
 import Rg.Spec.C12
 /-! How the model's data is presented to the executable spec `SpecC12.verdict` (used by the driver and by
-`C12.model_meets_spec_partial`). -/
+`C12.model_meets_spec`). -/
 namespace CM
 
 def atomToSpec : Atom → SpecC12.Atom
